@@ -175,6 +175,13 @@ func (c *c20Case) render() (files map[string]string, expects []c20Expect) {
 					e.fails = true
 				case "empty", "garbage":
 					e.fails = tool == "shellcheck"
+				case "two-documents", "json-then-garbage":
+					// shellcheck: output that is not one JSON document is fatal; pyflakes: the stand-in
+					// prints issue lines (two-documents) or no issue line at all
+					e.fails = tool == "shellcheck"
+					if tool == "pyflakes" && s.Plan == "two-documents" {
+						e.issues = s.N + 1
+					}
 				}
 				expects = append(expects, e)
 			}
@@ -538,11 +545,12 @@ func TestC20(t *testing.T) {
 							s.Plan, s.N = "issues", rapid.IntRange(1, 4).Draw(rt, "nissues")
 						case 3:
 							if failing {
-								s.Plan = rapid.SampledFrom([]string{"exit-nonzero-silent", "kill", "kill-after-output", "empty", "garbage"}).Draw(rt, "fplan")
+								s.Plan = rapid.SampledFrom([]string{"exit-nonzero-silent", "kill", "kill-after-output", "empty", "garbage", "two-documents", "json-then-garbage"}).Draw(rt, "fplan")
 								s.N = rapid.IntRange(0, 2).Draw(rt, "fn")
 							}
 						case 4:
-							s.Plan = rapid.SampledFrom([]string{"empty", "garbage"}).Draw(rt, "softplan")
+							s.Plan = rapid.SampledFrom([]string{"empty", "garbage", "two-documents", "json-then-garbage"}).Draw(rt, "softplan")
+							s.N = rapid.IntRange(0, 2).Draw(rt, "softn")
 							if !failing {
 								// only harmless for pyflakes; make the step a python step
 								s.Shell = "python"
